@@ -392,6 +392,8 @@ pub fn check_progress(policy: &Policy, miners: &[MinerSnap], at: ChainEpoch, o: 
             let waiting = d.partitions.iter().any(|p| p.early_terminated.values().any(|b| !b.is_empty()));
             if waiting && !m.early_terminations.contains(&(di as u64)) {
                 o.violate("early_terminations_processed", "C05/early_terminations_stranded", format!("after tick at {at}: miner {} deadline {di} has sectors waiting for early-termination processing but the miner does not list that deadline ({:?}): they will never be processed", m.id, m.early_terminations));
+                // ... and therefore never charged their termination fee (C15)
+                o.violate("early_termination_fee", "C15/early_termination_never_charged", format!("after tick at {at}: miner {} deadline {di} holds early-terminated sectors that no pending work item will ever settle (miner-level early terminations {:?}): their termination fee is never charged", m.id, m.early_terminations));
             }
         }
         let _ = policy;
